@@ -1,6 +1,6 @@
 (* Property C02 — incremental (warm-cache) runs report exactly what a cold run reports.
    Only theorem statements closed by `exact`, each followed by Print Assumptions; then Examples showing that
-   the contracts are satisfiable by a concrete, non-trivial instance. *)
+   the contracts are satisfiable by a concrete, non-trivial instance, and the refutation of the full statement. *)
 From Coq Require Import List Bool Arith Lia.
 From C02 Require Import Model Proofs Statement.
 Import ListNotations.
@@ -9,7 +9,6 @@ Section Theorems.
   Variable content_of : modid -> stamp -> content.
   Variable imports : modid -> content -> opts -> list modid.
   Variable probes : modid -> content -> opts -> list modid.
-  Variable check : modid -> content -> opts -> (modid -> option ihash) -> result.
   Variable analyze : list modid -> (modid -> content) -> opts -> (modid -> option ihash) -> modid -> result.
   Variable sccs_of : list (modid * list modid) -> list (list modid).
   Variable reach : list (modid * list modid) -> modid -> modid -> bool.
@@ -17,103 +16,73 @@ Section Theorems.
   Variable thash : list (modid * list modid) -> modid -> nat.
   Variable ign_of : modid -> stamp -> opts -> bool.
   Variable blocker : modid -> content -> bool.
-  Hypothesis AC : AnalysisContract imports probes check analyze.   (* contract, monitored not proved *)
-  Hypothesis GC : GraphContract analyze sccs_of reach thash.                   (* contract, checked on every observed SCC list *)
+  (* contract, monitored not proved: the analysis of an SCC is a function of the SET of member sources, the options and
+     the lower interfaces it reads.  No uniqueness assumption about import cycles.  Recorded violations: F10 (member
+     order matters), F9 (implicit reads), F7 (stub-ness is not part of the hashed source). *)
+  Hypothesis AC : AnalysisContract imports probes analyze.
+  Hypothesis GC : GraphContract analyze sccs_of reach thash.
 
-  Notation CacheOK := (CacheOK content_of imports probes check reach thash blocker).
-  Notation ProbeFresh := (ProbeFresh content_of probes ign_of).
+  Notation CacheOK := (CacheOK content_of imports probes analyze reach thash blocker).
+  Notation SideOK := (SideOK content_of imports probes sccs_of ign_of).
   Notation HistOK := (HistOK content_of imports probes analyze sccs_of reach sdo_of thash ign_of blocker).
-  Notation Unique := (Unique content_of check ign_of).
   Notation warm := (warm content_of imports probes analyze sccs_of reach sdo_of thash ign_of blocker).
   Notation cold := (cold content_of imports probes analyze sccs_of reach sdo_of thash ign_of blocker).
   Notation runs := (runs content_of imports probes analyze sccs_of reach sdo_of thash ign_of blocker).
 
-  (* every run (also one aborted by a blocking error) from a cache satisfying the invariant leaves such a cache,
-     provided the dependency lists it reuses are still right (ProbeFresh: no probed `from pkg import name` that was
-     not a module has become one) *)
+  (* every run (also an aborted one) keeps the invariant: every entry was produced by ONE analysis call on exactly the
+     inputs its hashes name, and the members of a call are written together (provenance) *)
   Theorem run_preserves_CacheOK : forall c fs o now,
-    CacheOK c -> ProbeFresh c o fs -> Proofs.FSOK fs -> CacheOK (snd (warm c fs o now)).
-  Proof. exact (p_run_preserves_CacheOK content_of imports probes check analyze sccs_of reach sdo_of thash ign_of blocker AC GC). Qed.
+    CacheOK c -> GenBound c now -> SideOK c o fs -> Proofs.FSOK fs ->
+    CacheOK (snd (warm c fs o now)) /\ GenBound (snd (warm c fs o now)) (S now).
+  Proof. exact (p_run_preserves content_of imports probes analyze sccs_of reach sdo_of thash ign_of blocker AC GC). Qed.
 
-  (* a warm run from ANY cache satisfying the invariant reports what the cold run reports (both abort, or both
-     report the same per-file diagnostics and status) *)
+  (* warm = cold from ANY cache satisfying the invariant, under the two decidable side conditions *)
   Theorem warm_eq_cold : forall c fs o n n',
-    CacheOK c -> ProbeFresh c o fs -> Proofs.FSOK fs -> Unique fs o ->
+    CacheOK c -> GenBound c n -> SideOK c o fs -> Proofs.FSOK fs ->
     output fs (warm c fs o n) = output fs (cold fs o n').
-  Proof. exact (p_warm_eq_cold content_of imports probes check analyze sccs_of reach sdo_of thash ign_of blocker AC GC). Qed.
+  Proof. exact (p_warm_eq_cold content_of imports probes analyze sccs_of reach sdo_of thash ign_of blocker AC GC). Qed.
 
-  (* all finite histories before the final state (cycles, aborted runs, option changes), side condition HistOK *)
-  Theorem warm_eq_cold_all_histories_partial : forall (h : list (FS * opts)) (fs : FS) (o : opts) (n n' : nat),
-    HistOK empty_store 0 h -> ProbeFresh (runs empty_store 0 h) o fs -> Proofs.FSOK fs -> Unique fs o ->
-    output fs (warm (runs empty_store 0 h) fs o n) = output fs (cold fs o n').
-  Proof. exact (p_history_partial content_of imports probes check analyze sccs_of reach sdo_of thash ign_of blocker AC GC). Qed.
+  (* all finite histories (cycles, aborted runs, option changes) along which the side conditions hold *)
+  Theorem warm_eq_cold_all_histories_partial : forall (h : list (FS * opts)) (fs : FS) (o : opts) (n' : nat),
+    HistOK empty_store 0 h -> SideOK (runs empty_store 0 h) o fs -> Proofs.FSOK fs ->
+    output fs (warm (runs empty_store 0 h) fs o (length h)) = output fs (cold fs o n').
+  Proof. exact (p_history_partial content_of imports probes analyze sccs_of reach sdo_of thash ign_of blocker AC GC). Qed.
 
-  (* uniqueness is a THEOREM for programs whose imports and reported indirect dependencies are well-founded ... *)
-  Theorem unique_for_acyclic_programs : forall fs o rank,
-    Acyclic content_of imports probes check fs o rank -> Unique fs o.
-  Proof. exact (p_acyclic_unique content_of imports probes check analyze ign_of AC). Qed.
-
-  (* ... and for programs with import cycles it follows from the SCC-as-a-unit assumption LevelUnique (rank = index of
-     the SCC): two solutions that agree on all lower SCCs agree on this SCC *)
-  Theorem unique_from_scc_uniqueness : forall fs o rank,
-    LevelUnique content_of check ign_of fs o rank -> Unique fs o.
-  Proof. exact (p_level_unique content_of imports probes check analyze ign_of AC). Qed.
-
-  (* hence, with NO uniqueness assumption: on an acyclic final program, warm = cold *)
-  Theorem warm_eq_cold_all_histories_acyclic : forall (h : list (FS * opts)) (fs : FS) (o : opts) rank (n n' : nat),
-    HistOK empty_store 0 h -> ProbeFresh (runs empty_store 0 h) o fs -> Proofs.FSOK fs ->
-    Acyclic content_of imports probes check fs o rank ->
-    output fs (warm (runs empty_store 0 h) fs o n) = output fs (cold fs o n').
-  Proof.
-    exact (fun h fs o rank n n' Hh HP Hfs Ha =>
-             p_history_partial content_of imports probes check analyze sccs_of reach sdo_of thash ign_of blocker AC GC h fs o n n' Hh HP Hfs (p_acyclic_unique content_of imports probes check analyze ign_of AC fs o rank Ha)).
-  Qed.
-
-  (* the full statement of Statement.v for programs that never probe (`from pkg import x` only for non-modules) *)
-  Theorem warm_eq_cold_all_histories_noprobes : (forall m c o, probes m c o = []) ->
-    (forall fs o, Proofs.FSOK fs -> Unique fs o) ->
-    warm_equals_cold_for_all_histories content_of imports probes analyze sccs_of reach sdo_of thash ign_of blocker.
-  Proof. exact (p_history_noprobes content_of imports probes check analyze sccs_of reach sdo_of thash ign_of blocker AC GC). Qed.
-
-  (* the same with the property's edits spelled out: any start, any list of Change/Add/Delete edits *)
-  Theorem warm_eq_cold_all_edit_lists_noprobes : (forall m c o, probes m c o = []) ->
-    forall (fs0 : FS) (es : list edit) (e : edit) (o : opts) n n',
-    Proofs.FSOK fs0 ->
-    let visited := fs0 :: states fs0 es in
-    let final := apply_edit (last visited fs0) e in
-    Unique final o ->
-    output final (warm (runs empty_store 0 (map (fun x => (x, o)) visited)) final o n) = output final (cold final o n').
-  Proof. exact (p_edits content_of imports probes check analyze sccs_of reach sdo_of thash ign_of blocker AC GC). Qed.
+  (* the side conditions are decidable predicates of (cache, options, files): Model.probe_fresh / Model.scc_stable *)
+  Theorem probe_fresh_decides : forall c o fs,
+    probe_fresh content_of probes ign_of c o fs = true -> ProbeFresh content_of probes ign_of c o fs.
+  Proof. exact (probe_fresh_sound content_of probes ign_of). Qed.
+  Theorem scc_stable_decides : forall c o fs,
+    scc_stable content_of imports probes sccs_of ign_of c o fs = true ->
+    SccFresh content_of imports probes sccs_of ign_of c o fs.
+  Proof. exact (scc_stable_sound content_of imports probes sccs_of ign_of). Qed.
 End Theorems.
 
 Print Assumptions run_preserves_CacheOK.
 Print Assumptions warm_eq_cold.
 Print Assumptions warm_eq_cold_all_histories_partial.
-Print Assumptions unique_for_acyclic_programs.
-Print Assumptions unique_from_scc_uniqueness.
-Print Assumptions warm_eq_cold_all_histories_acyclic.
-Print Assumptions warm_eq_cold_all_histories_noprobes.
-Print Assumptions warm_eq_cold_all_edit_lists_noprobes.
+Print Assumptions probe_fresh_decides.
+Print Assumptions scc_stable_decides.
 
 (* ------------------------------------------------------------------ the hypotheses are satisfiable *)
-(* An instance in which diagnostics really depend on the interfaces of the imported (and probed) modules. *)
 Definition ex_content_of (m : modid) (s : stamp) : content := s.
 Definition ex_imports (m : modid) (c : content) (o : opts) : list modid := if Nat.even c then [] else [c / 2].
 Definition ex_probes (m : modid) (c : content) (o : opts) : list modid := if Nat.eqb c 6 then [3] else [].
 Definition ex_noprobes (m : modid) (c : content) (o : opts) : list modid := [].
-Definition ex_check (pr : modid -> content -> opts -> list modid)
-           (m : modid) (c : content) (o : opts) (env : modid -> option ihash) : result :=
-  {| r_iface := S c;
-     r_errors := map (fun d => match env d with Some h => h | None => 0 end) (ex_imports m c o ++ pr m c o);
+(* diagnostics depend on the interfaces of the imported / probed modules: of co-members through their sources, of lower
+   modules through the environment *)
+Definition ex_analyze (pr : modid -> content -> opts -> list modid)
+           (S0 : list modid) (src : modid -> content) (o : opts) (env : modid -> option ihash) (m : modid) : result :=
+  {| r_iface := S (src m);
+     r_errors := map (fun d => if mem d S0 then S (src d) else match env d with Some h => h | None => 0 end)
+                     (ex_imports m (src m) o ++ pr m (src m) o);
      r_indirect := [] |}.
-Definition ex_analyze pr (S0 : list modid) (src : modid -> content) (o : opts) (env : modid -> option ihash) (m : modid) :=
-  ex_check pr m (src m) o (extend env S0 (fun x => S (src x))).
 Definition ex_sccs (dm : list (modid * list modid)) : list (list modid) := [map fst dm].
-Definition ex_reach (dm : list (modid * list modid)) (m d : modid) : bool := false.   (* no indirect deps in the instance *)
+Definition ex_reach (dm : list (modid * list modid)) (m d : modid) : bool := false.
 Definition ex_thash (dm : list (modid * list modid)) (m : modid) : nat := 0.
 Definition ex_sdo (l : list modid) (o : opts) : nat := length l.
-Definition ex_ign (m : modid) (s : stamp) (o : opts) : bool := Nat.eqb m 7.     (* module 7 is followed silently *)
-Definition ex_blocker (m : modid) (c : content) : bool := Nat.eqb c 99.          (* content 99 has a syntax error *)
+Definition ex_ign (m : modid) (s : stamp) (o : opts) : bool := Nat.eqb m 7.
+Definition ex_blocker (m : modid) (c : content) : bool := Nat.eqb c 99.
 
 Fact ex_one : forall (l : list modid) L1 S0 L2, [l] = L1 ++ S0 :: L2 -> L1 = [] /\ S0 = l.
 Proof.
@@ -121,14 +90,23 @@ Proof.
   exfalso. eapply app_cons_not_nil; eauto.
 Qed.
 
-Example analysis_contract_satisfiable : forall pr, AnalysisContract ex_imports pr (ex_check pr) (ex_analyze pr).
+Fact mem_equiv : forall d (a b : list modid), (forall x, In x a <-> In x b) -> mem d a = mem d b.
+Proof.
+  intros. destruct (mem d a) eqn:A; destruct (mem d b) eqn:B; auto.
+  - apply mem_In in A. apply H in A. apply mem_In in A. congruence.
+  - apply mem_In in B. apply H in B. apply mem_In in B. congruence.
+Qed.
+
+Example analysis_contract_satisfiable : forall pr, AnalysisContract ex_imports pr (ex_analyze pr).
 Proof.
   intros pr. constructor.
-  - intros m c o env env' H. unfold ex_check. f_equal. apply map_ext_in. intros d Hd. rewrite H; auto.
+  - intros S0 S' src src' o env env' EQ SRC RD m Hm. unfold ex_analyze. rewrite <- (SRC m Hm). f_equal.
+    apply map_ext_in. intros d Hd. rewrite <- (mem_equiv d S0 S' EQ). destruct (mem d S0) eqn:M.
+    + apply mem_In in M. rewrite (SRC d M). auto.
+    + rewrite (RD m d Hm); auto. split. apply mem_false; auto. left; auto.
   - simpl; tauto.
   - simpl; tauto.
   - simpl; intros; discriminate.
-  - intros; reflexivity.
 Qed.
 
 Example graph_contract_satisfiable : forall pr, GraphContract (ex_analyze pr) ex_sccs ex_reach ex_thash.
@@ -138,52 +116,46 @@ Proof.
     + simpl. rewrite app_nil_r. auto.
     + simpl. intros; rewrite app_nil_r. tauto.
     + intros L1 S0 L2 m ds d H Hm Hl Hd. apply ex_one in H as [-> ->]. simpl. eapply CL; eauto. eapply lookup_In; eauto.
-  - intros dm L1 S0 L2 m d H Hm Hr. discriminate.
+  - intros dm dm' K _ S0 [<-|[]]. exists (map fst dm'). split. left; auto. rewrite K. tauto.
+  - intros; discriminate.
   - reflexivity.
   - simpl; tauto.
 Qed.
 
-(* in this instance every program (cyclic ones too) has a unique solution *)
-Example unique_satisfiable : forall pr fs o, Proofs.FSOK fs -> Unique ex_content_of (ex_check pr) ex_ign fs o.
-Proof.
-  intros pr fs o HFS I E I' E' S1 S2 m G. apply inG_lookup in G as [s Hs].
-  destruct (S1 _ _ Hs) as [A1 A2]. destruct (S2 _ _ Hs) as [B1 B2]. simpl in *. split. congruence.
-  rewrite A2, B2. destruct (ex_ign m s o); auto. apply map_ext_in. intros d _. unfold genv. destruct (inG fs d) eqn:G; auto.
-  apply inG_lookup in G as [s' Hs']. destruct (S1 _ _ Hs') as [C1 _]. destruct (S2 _ _ Hs') as [D1 _]. simpl in *. congruence.
-Qed.
-
-(* the positive theorem instantiated (no probes): closed, no hypotheses left *)
-Example warm_eq_cold_instance :
-  warm_equals_cold_for_all_histories ex_content_of ex_imports ex_noprobes (ex_analyze ex_noprobes) ex_sccs ex_reach ex_sdo
-                                     ex_thash ex_ign ex_blocker.
-Proof.
-  exact (warm_eq_cold_all_histories_noprobes _ _ _ _ _ _ _ _ _ _ _ (analysis_contract_satisfiable ex_noprobes)
-           (graph_contract_satisfiable ex_noprobes) (fun _ _ _ => eq_refl) (unique_satisfiable ex_noprobes)).
-Qed.
-
 Definition ex_o := {| o_snap := 1; o_version := 1; o_plugin := 0 |}.
+Definition ex_fs1 : FS := [(5, 5); (2, 8)].    (* module 5 (content 5) imports module 2 *)
+Definition ex_fs2 : FS := [(5, 5); (2, 10)].   (* module 2 edited *)
+Definition ex_fs3 : FS := [(5, 5); (2, 99)].   (* module 2 has a syntax error *)
+
+(* a concrete history: an edit changes the diagnostics of an unchanged module; a syntax error aborts the run and leaves
+   the cache usable; the side conditions hold (decided by computation) *)
+Example ex_history_outputs :
+  let W := warm ex_content_of ex_imports ex_noprobes (ex_analyze ex_noprobes) ex_sccs ex_reach ex_sdo ex_thash ex_ign ex_blocker in
+  let c1 := snd (W empty_store ex_fs1 ex_o 0) in
+  let c2 := snd (W c1 ex_fs2 ex_o 1) in
+  let c3 := snd (W c2 ex_fs3 ex_o 2) in
+  (output ex_fs1 (W empty_store ex_fs1 ex_o 0), output ex_fs2 (W c1 ex_fs2 ex_o 1),
+   output ex_fs3 (W c2 ex_fs3 ex_o 2), output ex_fs2 (W c3 ex_fs2 ex_o 3),
+   scc_stable ex_content_of ex_imports ex_noprobes ex_sccs ex_ign c1 ex_o ex_fs2,
+   probe_fresh ex_content_of ex_noprobes ex_ign c1 ex_o ex_fs2)
+  = (Some ([(5, Some [9]); (2, Some [])], true), Some ([(5, Some [11]); (2, Some [])], true),
+     None, Some ([(5, Some [11]); (2, Some [])], true), true, true).
+Proof. vm_compute. reflexivity. Qed.
 
 (* ------------------------------------------------------------------ the FULL statement is refuted by the faithful model *)
-(* `from pkg import name` (module 1, content 6, probes module 3) while pkg/name.py (module 3) does not exist; then it is
-   added.  The cached lists of module 1 mention module 3 nowhere, so module 1 is judged fresh and its old diagnostics
-   are replayed.  Reproduced on the real tree: see notes/C02.md, finding F6. *)
-(* SCC function of the witness: singletons, dependencies first.  On the three dependency maps that occur below it
-   returns [[1]], [[3];[1]] (cold: 1 depends on 3) and [[3];[1]] (warm: 1 has no recorded dependency): all in
-   dependency order.  (It is not claimed to satisfy GraphContract on every graph.) *)
+(* F6: `from pkg import name` (module 1, content 6, probes module 3) while pkg/name.py (module 3) does not exist; then it
+   is added.  Module 1's cached lists mention module 3 nowhere, so module 1 is judged fresh and its old diagnostics are
+   replayed; `probe_fresh` is false on that step, i.e. the side condition of the positive theorem detects it. *)
 Definition ex_sccs2 (dm : list (modid * list modid)) : list (list modid) := map (fun p => [fst p]) (rev dm).
-Definition ex_reach2 (dm : list (modid * list modid)) (m d : modid) : bool := false.
 
 Theorem warm_equals_cold_refuted :
-  exists content_of imports probes check analyze sccs_of reach sdo_of thash ign_of blocker,
-    AnalysisContract imports probes check analyze /\
-    (forall fs o, Proofs.FSOK fs -> Unique content_of check ign_of fs o) /\
+  exists content_of imports probes analyze sccs_of reach sdo_of thash ign_of blocker,
+    AnalysisContract imports probes analyze /\
     ~ warm_equals_cold_for_all_histories content_of imports probes analyze sccs_of reach sdo_of thash ign_of blocker.
 Proof.
-  exists ex_content_of, ex_imports, ex_probes, (ex_check ex_probes), (ex_analyze ex_probes), ex_sccs2, ex_reach2, ex_sdo,
-         ex_thash, ex_ign, ex_blocker.
+  exists ex_content_of, ex_imports, ex_probes, (ex_analyze ex_probes), ex_sccs2, ex_reach, ex_sdo, ex_thash, ex_ign, ex_blocker.
   split; [apply analysis_contract_satisfiable|].
-  split; [apply unique_satisfiable|].
-  intro H. specialize (H [([(1, 6)], ex_o)] [(1, 6); (3, 4)] ex_o 2 1).
+  intro H. specialize (H [([(1, 6)], ex_o)] [(1, 6); (3, 4)] ex_o 0).
   assert (A : forall fs' o', In (fs', o') [([(1, 6)], ex_o)] -> Statement.FSOK fs').
   { intros fs' o' [X|[]]. inversion X; subst. repeat constructor; simpl; tauto. }
   assert (B : Statement.FSOK [(1, 6); (3, 4)]).
@@ -192,27 +164,8 @@ Proof.
 Qed.
 Print Assumptions warm_equals_cold_refuted.
 
-(* an acyclic program in the sense of `Acyclic`: module 5 (content 5) imports module 2 (content 8, no imports) *)
-Definition ex_fs1 : FS := [(5, 5); (2, 8)].
-Definition ex_fs2 : FS := [(5, 5); (2, 10)].   (* module 2 edited *)
-Definition ex_fs3 : FS := [(5, 5); (2, 99)].   (* module 2 now has a syntax error *)
-Example acyclic_satisfiable : Acyclic ex_content_of ex_imports ex_noprobes (ex_check ex_noprobes) ex_fs1 ex_o (fun m => m).
-Proof.
-  intros m s d env Hs Hd [H|H]; [|inversion H].
-  simpl in Hs. destruct (Nat.eqb m 5) eqn:E5.
-  - apply Nat.eqb_eq in E5; subst. inversion Hs; subst. simpl in H. destruct H as [<-|[]]. simpl; lia.
-  - destruct (Nat.eqb m 2) eqn:E2; try discriminate. inversion Hs; subst. simpl in H. tauto.
-Qed.
-
-(* a concrete history: editing module 2 changes the diagnostics of the unchanged module 5; then a syntax error in
-   module 2 aborts the run (None) and leaves the cache usable; then the error is repaired *)
-Example ex_history_outputs :
-  let W := warm ex_content_of ex_imports ex_noprobes (ex_analyze ex_noprobes) ex_sccs ex_reach ex_sdo ex_thash ex_ign ex_blocker in
-  let c1 := snd (W empty_store ex_fs1 ex_o 1) in
-  let c2 := snd (W c1 ex_fs2 ex_o 2) in
-  let c3 := snd (W c2 ex_fs3 ex_o 3) in
-  (output ex_fs1 (W empty_store ex_fs1 ex_o 1), output ex_fs2 (W c1 ex_fs2 ex_o 2),
-   output ex_fs3 (W c2 ex_fs3 ex_o 3), output ex_fs2 (W c3 ex_fs2 ex_o 4))
-  = (Some ([(5, Some [9]); (2, Some [])], true), Some ([(5, Some [11]); (2, Some [])], true),
-     None, Some ([(5, Some [11]); (2, Some [])], true)).
+Example refutation_is_caught_by_side_condition :
+  let c1 := snd (warm ex_content_of ex_imports ex_probes (ex_analyze ex_probes) ex_sccs2 ex_reach ex_sdo ex_thash ex_ign ex_blocker
+                      empty_store [(1, 6)] ex_o 0) in
+  probe_fresh ex_content_of ex_probes ex_ign c1 ex_o [(1, 6); (3, 4)] = false.
 Proof. vm_compute. reflexivity. Qed.
